@@ -89,3 +89,27 @@ func (s *Service) Nested(wallets []wallet) {
 		}(w)
 	}
 }
+
+// PerIteration: a variable declared inside the loop that starts the goroutine exists once per iteration;
+// a slice of results is written element by element.
+func (s *Service) PerIteration(wallets []wallet) []int {
+	results := make([]int, len(wallets))
+	for i, w := range wallets {
+		res := &wallet{}
+		go func() {
+			res.names = w.names
+			results[i] = len(res.names)
+		}()
+	}
+	return results
+}
+
+// Shared: the same without the per-iteration declaration: every goroutine writes the one variable.
+func (s *Service) Shared(wallets []wallet) {
+	res := &wallet{}
+	for _, w := range wallets {
+		go func() {
+			res.names = w.names
+		}()
+	}
+}
